@@ -68,7 +68,7 @@ FamComplete ==
                 ps \in {"none", "zero", "lt", "eq"}, sd \in {0, 1}, mode \in Modes }
       S3 == { One(Member(n, t, 1, 1, "mid", "mid", 0, "lt", "lt", 0, sd, lb, rng), mode) :
                 n \in {2, 64}, t \in 1..6, sd \in {0, 1}, lb \in {0, 1, 2},
-                rng \in {"chacha", "zero", "const", "ctr", "p2"}, mode \in {"VerifyOnly", "RecoverAndVerify"} }
+                rng \in {"chacha", "zero", "const", "ctr", "p2", "os"}, mode \in {"VerifyOnly", "RecoverAndVerify"} }
       \* openings whose blinding factors are all zero at one position (value 0 then gives the identity as commitment)
       S4 == { One([Member(n, t, m, m, "mid", vs, js, "none", ps, js, IF m = 1 THEN sd ELSE 0, 0, "chacha") EXCEPT !.zb = js], mode) :
                 n \in {1, 8, 64}, t \in {1, 3}, m \in {1, 4}, vs \in {"zero", "one"}, js \in {1, 4}, ps \in {"none", "zero"}, sd \in {0, 1},
